@@ -139,8 +139,8 @@ class FinallyResume(Frame):
 
 
 class Except(Frame):
-    def __init__(self, handlers, scope):
-        self.handlers, self.scope = handlers, scope
+    def __init__(self, handlers, scope, orelse=()):
+        self.handlers, self.scope, self.orelse = handlers, scope, list(orelse)
 
     def shape(self):
         return ("Except", self.scope, id(self.handlers[0]))
@@ -495,13 +495,18 @@ class Executor:
             return R(NORMAL)
         if isinstance(s, (ast.FunctionDef, ast.AsyncFunctionDef)):
             return R(NORMAL, self.bind(scopes, cur, s.name, Ent("closure", s)))
+        if isinstance(s, ast.Delete):
+            h = getattr(self.dom, "delete", None)
+            if h is None or not h(self, s.targets):
+                raise Unsupported(f"{self.ident}: del {ast.unparse(s)}")
+            return R(NORMAL)
         if isinstance(s, ast.Assert):
             v = self.truth(self.ev_call_pure(s.test, scopes, cur, st))
             if isinstance(v, Const) and v.v:
                 return R(NORMAL)
             raise Unsupported(f"{self.ident}: assert whose condition is not statically true: {ast.unparse(s.test)}")
         if isinstance(s, ast.Return):
-            if isinstance(s.value, ast.Call):
+            if isinstance(s.value, (ast.Call, ast.Await)):
                 # `return f(x)` is `tmp = f(x); return tmp` (the call may have effects, raise, or be inlined)
                 tmp = ast.Name(id="return value", ctx=ast.Store())
                 ret = ast.Return(value=ast.Name(id="return value", ctx=ast.Load()))
@@ -538,13 +543,13 @@ class Executor:
         if isinstance(s, ast.For):
             return self.exec_for(s, stack, scopes, cur, st, ind)
         if isinstance(s, ast.Try):
-            if s.orelse:
+            if s.orelse and not (s.handlers and getattr(self.dom, "allow_try_else", False)):
                 raise Unsupported(f"{self.ident}: try/else")
             st2 = stack
             if s.finalbody:
                 st2 = st2 + [Finally(s.finalbody, cur)]
             if s.handlers:
-                st2 = st2 + [Except(s.handlers, cur)]
+                st2 = st2 + [Except(s.handlers, cur, s.orelse)]
             return self.run_stmts(s.body, st2, scopes, cur, st, ind)
         if isinstance(s, ast.AsyncWith):
             return self.exec_async_with(s, stack, scopes, cur, st, ind)
@@ -579,7 +584,8 @@ class Executor:
     def ev_raise(self, e, scopes, cur, st):
         if isinstance(e, ast.Call):
             cls = ast.unparse(e.func)
-            v = self.dom.make_exn(cls)
+            h = getattr(self.dom, "make_exn_call", None)
+            v = h(e) if h is not None else self.dom.make_exn(cls)
             if v is None:
                 raise Unsupported(f"{self.ident}: raise of {cls}")
             return v
@@ -601,6 +607,11 @@ class Executor:
     def exec_assign(self, targets, value, stack, scopes, cur, st, ind):
         """targets = value   /   bare expression statement (targets = [])"""
         if isinstance(value, ast.Await):
+            h = getattr(self.dom, "await_as_call", None)
+            if h is not None and h(value.value):
+                # `await <delegating call>`: PEP 492 delegation is transparent, the caller sees only the final
+                # outcome of the awaited operation (its own suspensions belong to the awaited object)
+                return self.exec_assign(targets, value.value, stack, scopes, cur, st, ind)
             return self.suspend("await", value, targets, stack, scopes, cur, st, ind)
         if isinstance(value, ast.Yield):
             if value.value is not None:
@@ -649,7 +660,12 @@ class Executor:
             out = f"{ind}match {scrut} with\n"
             for pat, mk in alts:
                 st2, outcome, pre = mk(ind + "  ")
-                out += f"{ind}| {pat} =>\n{pre}" + self.resume(stack, outcome, scopes, cur, st2, ind + "  ")
+                sc = scopes
+                if outcome[0] == "normal" and targets:
+                    sc, pre2, st2 = self.dom.assign_eff(self, scopes, cur, targets, outcome[1], st2, ind + "  ")
+                    pre += pre2
+                    outcome = NORMAL
+                out += f"{ind}| {pat} =>\n{pre}" + self.resume(stack, outcome, sc, cur, st2, ind + "  ")
             return out
         raise Unsupported(f"{self.ident}: call result {r[0]}")
 
@@ -819,6 +835,9 @@ class Executor:
                 return self.resume(rest, f.outcome, scopes, f.scope, st, ind)
             return self.resume(rest, o, scopes, f.scope, st, ind)     # the finally body's own exit wins
         if isinstance(f, Except):
+            if kind == "normal" and f.orelse:
+                # `else:` clause: runs after a body that raised nothing, no longer protected by the handlers
+                return self.run_stmts(f.orelse, rest, scopes, f.scope, st, ind)
             if kind != "raise":
                 return self.resume(rest, o, scopes, f.scope, st, ind)
             return self.dispatch(f.handlers, o[1], rest, scopes, f.scope, st, ind)
@@ -873,7 +892,10 @@ class Executor:
         if isinstance(f, GenStart):
             raise Unsupported(f"{self.ident}: generator context manager finished without yielding")
         if isinstance(f, GenFinish):
-            # contextlib._AsyncGeneratorContextManager.__aexit__
+            # contextlib._(Async)GeneratorContextManager.__(a)exit__ — this inlining rule is the theorem
+            # `Asynkit.GenEqContextlib.with_inlining_rule` (+ `async_with_inlining_rule`), proved about the
+            # translation of the running interpreter's contextlib.py (Gen/Contextlib.lean); what stays trusted is
+            # the generator object envelope (Model/GenEnvelope.lean) and PEP 343's desugaring of `with`.
             body_o = f.outcome
             if kind == "raise":
                 # (if it is the very exception that was thrown in, __aexit__ returns False and the with
@@ -1032,6 +1054,7 @@ def live_names(stack):
             elif isinstance(f, Except):
                 for h in f.handlers:
                     add(h.body)
+                add(f.orelse)
             elif isinstance(f, WithExit):
                 walk(f.gstack)
     walk(stack)
